@@ -342,6 +342,10 @@ def check_exchange(S, rec, rng):
         hdrs.append(("Transfer-Encoding", "chunked"))
         wire = chunked(rng, body, rng.choice([b"\r\n", b"\n"]))
         rec.observe("chunked_requests")
+        if rng.random() < 0.3:
+            # both framings announced (Transfer-Encoding wins, RFC 9112 6.3): the body is still the de-chunked one
+            hdrs.append(("Content-Length", str(rng.choice([len(wire), len(body), 3]))))
+            rec.observe("chunked_requests_with_content_length")
     else:
         hdrs.append(("Content-Length", str(len(body))))
         wire = body
@@ -361,6 +365,9 @@ def check_exchange(S, rec, rng):
     plan = rng.choice(["normal"] * 6 + ["restart_with_length", "raise_before_body", "restart_without_length", "empty_headers", "empty_headers"])
     if plan == "empty_headers":
         with_cl = False
+
+    reuse_headers = plan == "normal" and rng.random() < 0.25
+    shared_h = []
 
     def app(environ, start_response):
         seen["env"] = dict(environ)
@@ -393,9 +400,17 @@ def check_exchange(S, rec, rng):
         else:
             got = inp.read(int(environ.get("CONTENT_LENGTH") or 0))
         seen["body"] = got
-        h = [("X-App", "1"), ("X-App", "2")]
-        if with_cl:
-            h.append(("Content-Length", str(sum(map(len, chunks)))))
+        if reuse_headers:
+            # an application that keeps its response headers in one list object and passes it every time
+            h = shared_h
+            if not h:
+                h += [("X-App", "1"), ("X-App", "2")]
+                if with_cl:
+                    h.append(("Content-Length", str(sum(map(len, chunks)))))
+        else:
+            h = [("X-App", "1"), ("X-App", "2")]
+            if with_cl:
+                h.append(("Content-Length", str(sum(map(len, chunks)))))
         if plan == "empty_headers":
             h = []
         if plan == "restart_with_length":
@@ -433,6 +448,10 @@ def check_exchange(S, rec, rng):
         rec.nontrivial(hash((raw, status, with_cl, tuple(chunks), use_write, version, tuple(pattern))) & 0xFFFFFFFFFFFFFFFF)
     case = {"part": "exchange", "request": raw, "read_pattern": pattern, "status": status, "with_content_length": with_cl, "chunks": chunks, "write_callable": use_write, "version": version}
     try:
+        if reuse_headers:
+            drive(S, raw, app, version)  # history: this is the application's second request, served like the first
+            seen.clear()
+            rec.observe("second_request_with_the_same_header_list")
         out = drive(S, raw, app, version)
     except Exception as e:  # noqa: BLE001 - a socket timeout on a loaded machine is the harness' problem: inconclusive, never a violation
         rec.observe("exchange_harness_errors")
@@ -502,6 +521,8 @@ def check_exchange(S, rec, rng):
     if sum(1 for k, v in resp["headers"] if k.lower() in ("server", "date")) > 2 or b"HTTP/1." in resp["rest"][:4000] and b"HTTP/1." not in payload:
         return rbad("C19/response-head-repeated", f"{out[:300]!r}")
     te = [v for k, v in resp["headers"] if k.lower() == "transfer-encoding"]
+    if len(te) > 1 or sum(1 for k, v in resp["headers"] if k.lower() == "connection") > 1:
+        return rbad("C19/response-headers-differ", f"framing headers repeated: {resp['headers']!r}")
     should_chunk = version == "HTTP/1.1" and req_version == "HTTP/1.1" and not with_cl and method != "HEAD" and not (100 <= code < 200 or code in (204, 304))
     if bool(te) != should_chunk:
         return rbad("C19/chunked-framing-decision", f"Transfer-Encoding {te!r} but should_chunk={should_chunk}")
